@@ -26,7 +26,7 @@ ASSUMPTIONS = [
 ]
 GATES = {
     "constant_ambiguity_volume": 1, "ambiguity_differs_on_less_than_1_percent_of_the_pixels": 1, "threshold_1": 1, "best_at_first_or_last_disparity": 1,
-    "two_steps_same_method_different_suffix": 1, "confidence_step_whose_suffix_contains_a_dot": 1, "max_type_volume": 3, "pipelines_compared_with_and_without": 5,
+    "two_steps_same_method_different_suffix": 1, "same_configuration_run_twice": 3, "confidence_step_whose_suffix_contains_a_dot": 1, "max_type_volume": 3, "pipelines_compared_with_and_without": 5,
     "regularisation_quantile_1": 1, "regularised_interval_bounds_after_ambiguity": 1, "regularisation_kernel_size_1": 1, "pixels_judged": 20000,
 }
 EPS = 4 * 1.2e-7
@@ -387,6 +387,18 @@ def _pipe(case, ctx):
     if got_conf != exp_names:
         ctx.violation("band-names", f"final bands {got_names}, expected {exp_names} (+ consistency band)", case,
                       situation="suffix" if any(sfx_of.values()) else "plain", desc=desc)
+    if case["i"] % 2 == 0 and got_conf == exp_names:
+        # the checked configuration is run a second time (documented usage: check once, run any number of times)
+        m2 = pipes.new_machine()
+        pipes.check(m2, pipe, left, right)
+        lres2, _ = pandora.run(m2, gen.deep_copy_ds(left), gen.deep_copy_ds(right), cfg)
+        names2 = [str(n) for n in lres2.coords["indicator"].data] if "confidence_measure" in lres2 else []
+        ctx.gate("same_configuration_run_twice")
+        if names2 != [str(n) for n in got_names]:
+            ctx.violation("band-names", f"second run of the same configuration: bands {names2}, first run {got_names}", case,
+                          situation="second-run-same-configuration", desc=desc)
+        elif names2 and not gen.same(lres2["confidence_measure"].data, lres["confidence_measure"].data):
+            ctx.violation("bands-differ-on-second-run", "confidence bands of the second run of the same configuration differ", case, desc=desc)
     ctx.gate("two_steps_same_method_different_suffix", int(same_twice))
     ctx.gate("confidence_step_whose_suffix_contains_a_dot", int(any(k.count(".") >= 2 for k in keys if pipes.kind_of(k) == "cost_volume_confidence")))
     # the same pipeline without the confidence steps (and without the interval filter, which only touches bands)
